@@ -480,7 +480,8 @@ def model_checking(tier, box):
         chains = [["MC_Dispatcher.cfg", "MC_Dispatcher_matrix.cfg", "SKIP"], ["MC_Dispatcher_live.cfg", "POOL1"]]
     else:
         chains = [["MC_Dispatcher_thorough.cfg", "POOL1", "SKIP"],
-                  ["MC_Dispatcher_matrix_thorough.cfg", "MC_Dispatcher_live_thorough.cfg"]]
+                  ["MC_Dispatcher_matrix_thorough.cfg", "MC_Dispatcher_drops_thorough.cfg",
+                   "MC_Dispatcher_live_thorough.cfg"]]
     results = {}
 
     def chain(cfgs):
